@@ -339,7 +339,33 @@ Theorem C20_fsp_parse_total : forall b, total (Misc.fsp_parse b).
 Proof. exact fsp_parse_total. Qed.
 Print Assumptions C20_fsp_parse_total.
 
+(* ================= FIT per-entry data parsers: startup ACM ================= *)
+(* EntrySACMParseSize: the slice b[24:] and the four bytes Uint32 reads are checked operations in
+   the model; the guard in front of them makes every byte string a value or an error *)
+Theorem C20_fit_sacm_parse_size_total : forall b, total (Misc.sacm_parse_size b).
+Proof. exact sacm_parse_size_total. Qed.
+Print Assumptions C20_fit_sacm_parse_size_total.
+
+(* ParseSACMData (common header, version dispatch, version-specific part, user area) *)
+Theorem C20_fit_sacm_parse_total : forall b, total (Misc.sacm_parse b).
+Proof. exact sacm_parse_total. Qed.
+Print Assumptions C20_fit_sacm_parse_total.
+
+(* ... and the user area it returns is a piece of the input (no allocation by the Size field) *)
+Theorem C20_fit_sacm_user_bounded : forall b s, Misc.sacm_parse b = Ok s ->
+  zlen (Misc.sacm_user s) <= zlen b.
+Proof. exact sacm_parse_user_bounded. Qed.
+Print Assumptions C20_fit_sacm_user_bounded.
+
 (* ---- non-vacuity: concrete inputs reach the accepting paths ---- *)
+Example ex_sacm_size : Misc.sacm_parse_size (zrepeat 0 24 ++ [1; 1; 0; 0; 255]) = Ok 1028.
+Proof. vm_compute. reflexivity. Qed.
+
+Example ex_sacm_v0_user :
+  match Misc.sacm_parse (zrepeat 0 24 ++ [49; 1; 0; 0] ++ zrepeat 0 92 ++ [64; 0; 0; 0] ++ zrepeat 0 (4 + 1088) ++ [7; 8; 9; 10]) with
+  | Ok s => (Misc.sacm_hdr_size s, Misc.sacm_user s) | _ => (-1, []) end = (1216, [7; 8; 9; 10]).
+Proof. vm_compute. reflexivity. Qed.
+
 Example ex_microcode :
   match Misc.mc_parse ([1;0;0;0; 36;4;0;0; 34;32;25;9; 163;6;9;0; 93;212;221;246; 1;0;0;0; 128;0;0;0;
                         4;0;0;0; 52;0;0;0] ++ zrepeat 0 16) with
